@@ -143,6 +143,7 @@ type C15Inspect struct {
 	Mask    []bool `json:"mask"`
 	Root    string `json:"root"`
 	PerAxis bool   `json:"per_axis,omitempty"` // also check MaskedCount(axis) (open finding F22: excluded by the generators)
+	L       Layout `json:"layout,omitempty"`   // a masked tensor that is lazily transposed / a view (zero: the plain root)
 }
 
 func init() { register("C15.inspect", func() Case { return &C15Inspect{} }) }
@@ -156,7 +157,7 @@ func (c *C15Inspect) NTKey() string {
 	if !any || all {
 		return ""
 	}
-	return fmt.Sprintf("%v|%v|%s", c.Shape, c.Mask, c.Root)
+	return fmt.Sprintf("%v|%v|%s|%v", c.Shape, c.Mask, c.Root, c.L)
 }
 
 // runs returns the maximal runs [start,end) of positions whose mask bit equals want.
@@ -180,13 +181,20 @@ func runs(mask []bool, want bool) [][2]int {
 func (c *C15Inspect) Run() string {
 	d := dtInt16
 	arr := seqArr(d, c.Shape, 1)
-	b, err := Build(arr, Layout{Root: c.Root}, c.Mask)
+	l := c.L
+	if l.Root == "" {
+		l = Layout{Root: c.Root}
+	}
+	b, err := Build(arr, l, c.Mask)
 	if err != nil {
 		return inconclusive
 	}
 	t := b.T
+	if !t.IsMasked() {
+		return inconclusive
+	}
 	n := len(arr.E)
-	desc := fmt.Sprintf("mask %v on shape %v (%s)", c.Mask, c.Shape, c.Root)
+	desc := fmt.Sprintf("mask %v on shape %v (%v)", c.Mask, c.Shape, l)
 	cnt := 0
 	for _, m := range c.Mask {
 		if m {
@@ -211,7 +219,37 @@ func (c *C15Inspect) Run() string {
 			msg = fmt.Sprintf("%s: MaskedAll() = %v, expected %v", desc, got, cnt == n)
 			return
 		}
-		if c.Root == "rm" { // the run and edge finders speak about the flattened (row-major) array
+		if len(l.Steps) > 0 {
+			// a lazily transposed (or sliced) masked tensor: the edge finders walk it in logical order and
+			// report positions in its storage window
+			rec.Class("inspect-layout:" + l.Kind())
+			offs := expectOffsets(b)
+			edges := func(want bool) (int, int) {
+				f, l := -1, -1
+				for i, m := range c.Mask {
+					if m == want {
+						if f == -1 {
+							f = offs[i]
+						}
+						l = offs[i]
+					}
+				}
+				return f, l
+			}
+			if f, l := t.FlatNotMaskedEdges(); true {
+				if wf, wl := edges(false); f != wf || l != wl {
+					msg = fmt.Sprintf("%s: FlatNotMaskedEdges() = (%d,%d), expected (%d,%d)", desc, f, l, wf, wl)
+					return
+				}
+			}
+			if f, l := t.FlatMaskedEdges(); true {
+				if wf, wl := edges(true); f != wf || l != wl {
+					msg = fmt.Sprintf("%s: FlatMaskedEdges() = (%d,%d), expected (%d,%d)", desc, f, l, wf, wl)
+					return
+				}
+			}
+		}
+		if c.Root == "rm" && len(l.Steps) == 0 { // the run and edge finders speak about the flattened (row-major) array
 			chk := func(name string, got []tensor.Slice, want [][2]int) bool {
 				if len(got) != len(want) {
 					msg = fmt.Sprintf("%s: %s finds %d runs, expected %v", desc, name, len(got), want)
@@ -524,6 +562,18 @@ func TestC15(t *testing.T) {
 				return &C15AllMasks{Shape: shape, Root: root}
 			})
 		}
+	}
+	// the inspection functions on masked tensors that are lazily transposed or views
+	for _, lk := range []string{"lazyT", "sliced", "leadsliced", "slicedT", "cmraw+lazyT", "picked"} {
+		lk := lk
+		cell(t, "C15", "C15.inspect", "inspect-layout/"+lk, nCases(60, 1500), func(rt *rapid.T) Case {
+			shape := genShapeMin2(rt, 2, 3, 3, "s")
+			c := &C15Inspect{Shape: shape, Mask: make([]bool, prod(shape)), L: genLayoutKind(rt, lk, len(shape), "l")}
+			for i := range c.Mask {
+				c.Mask[i] = rapid.IntRange(0, 2).Draw(rt, "m") == 0
+			}
+			return c
+		})
 	}
 	// masks carried through transposition, slicing and copying
 	for _, op := range []string{"T", "Transpose", "SafeT", "Slice", "Materialize", "Clone"} {
